@@ -1,5 +1,6 @@
 import OmplModel.Proofs.Constrained
 import OmplModel.Proofs.ConstrainedField
+import OmplModel.Proofs.ConstrainedAtlas
 /-!
 # C16 — constrained spaces keep sampled, interpolated and path states on the manifold
 
@@ -345,6 +346,239 @@ theorem sampler_bounds_after_projection :
   · simp [isSatisfied, stuckOracle, natArith, natResid]
   · simp [isSatisfied, stuckOracle, natArith, natResid]
 
+/-! ## Atlas-based spaces (Model/ConstrainedAtlas.lean)
+
+`AtlasStateSpace::discreteGeodesic`, `TangentBundleStateSpace::discreteGeodesic / project /
+geodesicInterpolate` and `AtlasStateSampler`, as coded, with **every** chart / atlas operation
+(`psi`, `phi`, `psiInverse`, `inPolytope`, `getChart` (hence `owningChart`/`newChart`),
+`sampleChart`, `borderCheck`), `isSatisfied`, `isValid`, the random draws and the Eigen arithmetic
+in chart coordinates as arbitrary stateful oracles.  "On the manifold" is `PsiOut x`: `x` is what a
+`psi` call that returned `true` left behind (`psi` returns `true` only after its own residual test;
+that Newton iteration is an oracle here and is sampled by checks/c16.py).  All [AF]. -/
+
+section atlas
+variable {U C : Type} (A : Arith D) (Am : Ambient S D) (O : AtlasOracle σ S U C D) (P : AtlasParams D)
+  (fuel : Nat) (s : σ) (frm tgt : S) (interp : Bool)
+
+/-- the list, when touched, is `from` followed by what the loop pushed (and the traversal only
+starts from a state that was answered `isSatisfied`) -/
+theorem atlas_geodesic_shape (l : List S)
+    (h : (atlasGeodesic A Am O P fuel s frm tgt interp).states = some l) :
+    (O.isSat s frm).1 = true ∧ ∃ xs, l = frm :: xs ∧ ATrace A Am O P interp tgt frm xs := by
+  unfold atlasGeodesic at h
+  simp only at h
+  split at h
+  · cases h
+  · rename_i hsat
+    split at h
+    · cases h
+    · split at h
+      · cases h
+      · split at h
+        · simp only [Option.some.injEq] at h
+          exact ⟨by simpa using hsat, [], h.symm, .nil _⟩
+        · simp only [Option.some.injEq] at h
+          exact ⟨by simpa using hsat, _, h.symm, atlasLoop_trace A Am O P interp frm tgt _ _ _ _ _ _ _ _ _ _⟩
+
+/-- every state stored by the atlas geodesic after the first is the output of a **successful**
+`psi` and, when `interpolate = false`, was answered valid. -/
+theorem atlas_geodesic_states_on_manifold (l : List S)
+    (h : (atlasGeodesic A Am O P fuel s frm tgt interp).states = some l) :
+    l.head? = some frm ∧ ∀ x ∈ l.tail, PsiOut O x ∧ (interp = false → AValid O x) := by
+  obtain ⟨_, xs, rfl, htr⟩ := atlas_geodesic_shape A Am O P fuel s frm tgt interp l h
+  exact ⟨rfl, ATrace.mem A Am O P interp tgt htr⟩
+
+/-- consecutive stored states: the test `step >= lambda * delta` was false (the bound is strict
+in the atlas space). -/
+theorem atlas_geodesic_step_bound (l : List S)
+    (h : (atlasGeodesic A Am O P fuel s frm tgt interp).states = some l) (i : Nat) (hi : i + 1 < l.length) :
+    A.le (A.mul P.lambda P.delta) (Am.dist (l[i]'(by omega)) (l[i + 1]'hi)) = false := by
+  obtain ⟨_, xs, rfl, htr⟩ := atlas_geodesic_shape A Am O P fuel s frm tgt interp l h
+  exact (ATrace.step A Am O P interp tgt htr).getElem i hi
+
+/-- a successful atlas geodesic ends within `delta` of the target: both closeness tests
+(`distance(scratch, to) <= delta` and `distance(to, scratch) <= delta`) passed on the last stored
+state. -/
+theorem atlas_geodesic_success_close
+    (h : (atlasGeodesic A Am O P fuel s frm tgt interp).ok = true) :
+    ∃ l y, (atlasGeodesic A Am O P fuel s frm tgt interp).states = some l ∧ l.getLast? = some y ∧
+      A.le (Am.dist y tgt) P.delta = true ∧ (y = frm ∨ A.le (Am.dist tgt y) P.delta = true) := by
+  unfold atlasGeodesic at h ⊢
+  simp only at h ⊢
+  split
+  · rename_i h1; simp [h1] at h
+  · rename_i h1
+    simp only [h1] at h
+    split
+    · rename_i h2; simp [h2] at h
+    · rename_i h2
+      simp only [h2] at h
+      split
+      · rename_i h3; simp [h3] at h
+      · rename_i c h3
+        simp only [h3] at h
+        split
+        · rename_i h4
+          exact ⟨[frm], frm, rfl, rfl, by simpa using h4, Or.inl rfl⟩
+        · rename_i h4
+          simp only [h4] at h
+          have hne : ∀ (xs : List S), ∃ y, (frm :: xs).getLast? = some y := fun xs =>
+            ⟨(frm :: xs).getLast (by simp), List.getLast?_eq_some_getLast _⟩
+          obtain ⟨y, hy⟩ := hne (atlasLoop A Am O P interp frm tgt (A.mul P.lambda (Am.dist frm tgt)) fuel
+            (O.psiInv (O.psiInv (O.getChart (validOrSkip O interp (O.isSat s frm).2 frm).2 frm false).2 c frm).2 c tgt).2
+            c (O.psiInv (O.getChart (validOrSkip O interp (O.isSat s frm).2 frm).2 frm false).2 c frm).1
+            (O.psiInv (O.psiInv (O.getChart (validOrSkip O interp (O.isSat s frm).2 frm).2 frm false).2 c frm).2 c tgt).1
+            frm A.zero A.one 0).states
+          have := atlasLoop_ok A Am O P interp frm tgt _ fuel _ c _ _ frm A.zero A.one 0 h y hy
+          exact ⟨_, y, rfl, hy, this.2, Or.inr this.1⟩
+
+end atlas
+
+section tb
+variable {U C : Type} (A : Arith D) (Am : Ambient S D) (O : AtlasOracle σ S U C D) (P : AtlasParams D)
+  (isFin : D → Bool) (fuel : Nat)
+
+/-- TangentBundle's `interpolate`, as coded: the state handed back is `from` (the geodesic failed,
+or the fix-up projection failed and `geodesic[0]` is returned) or the output of a **successful**
+fix-up `psi` that was also answered valid — never one of the lazily stored, unprojected states. -/
+theorem tb_interpolate_on_manifold (s : σ) (frm tgt : S) (t : D) (x : S) (s' : σ)
+    (h : tbInterpolate A Am O P isFin fuel s frm tgt t = some (x, s')) :
+    x = frm ∨ (PsiOut O x ∧ AValid O x) := by
+  unfold tbInterpolate at h
+  simp only at h
+  split at h
+  · rename_i hok
+    simp only [tbGeo] at hok h
+    obtain ⟨l, hl⟩ := tbGeodesic_ok_some A Am O P isFin fuel s frm tgt true hok
+    have hhead := tbGeodesic_head A Am O P isFin fuel s frm tgt true l hl
+    rw [hl] at h
+    simp only [Option.getD_some] at h
+    unfold tbPick at h
+    split at h
+    · cases h
+    · split at h
+      · cases h
+      · rename_i r hr
+        split at h
+        · rename_i hr1
+          simp only [Option.some.injEq, Prod.mk.injEq] at h
+          obtain ⟨hx, _⟩ := h
+          subst hx
+          exact Or.inr (tbProject_true O _ _ r hr hr1)
+        · rw [hhead] at h
+          simp only [Option.map_some, Option.some.injEq, Prod.mk.injEq] at h
+          exact Or.inl h.1.symm
+  · simp only [Option.some.injEq, Prod.mk.injEq] at h
+    exact Or.inl h.1.symm
+
+end tb
+
+section sampler
+variable {U C : Type} (Am : Ambient S D) (O : AtlasOracle σ S U C D)
+
+/-- `sampleUniform`: the coordinates before `enforceBounds` are the output of a successful `psi`
+or the origin of a chart. -/
+theorem atlas_sampler_uniform_spec (T fuel : Nat) (s : σ) (buf : S) (r : SampleOut σ S)
+    (h : atlasSampleUniform Am O T fuel s buf = some r) :
+    r.state = Am.clamp r.raw ∧
+      ((r.via = .psi ∧ PsiOut O r.raw) ∨ (r.via = .fallback ∧ ∃ c, r.raw = O.origin c)) := by
+  unfold atlasSampleUniform at h
+  split at h
+  · cases h
+  · rename_i x via c ru n s' hu
+    simp only [Option.some.injEq] at h
+    subst h
+    refine ⟨rfl, ?_⟩
+    rcases uniOuter_spec O fuel fuel _ _ _ _ _ _ hu with h | h
+    · exact Or.inl h
+    · exact Or.inr ⟨h.1, c, h.2⟩
+
+/-- `sampleUniformNear` / `sampleGaussian` (a chart was found for `near`): the coordinates before
+`enforceBounds` are the output of a successful `psi`, or `near` itself. -/
+theorem atlas_sampler_near_spec (T fuel : Nat) (s : σ) (buf near : S) (d : D) (c : C)
+    (hc : (O.getChart s near true).1.1 = some c) (r : SampleOut σ S)
+    (h : atlasSampleNear Am O T fuel s buf near d = some r) :
+    r.state = Am.clamp r.raw ∧ ((r.via = .psi ∧ PsiOut O r.raw) ∨ (r.via = .fallback ∧ r.raw = near)) := by
+  unfold atlasSampleNear at h
+  simp only [hc] at h
+  split at h
+  · cases h
+  · rename_i q hq
+    simp only [Option.some.injEq] at h
+    subst h
+    obtain ⟨hraw, hvia, hstate⟩ := nearFinish_raw Am O c near q
+    refine ⟨hstate, ?_⟩
+    rw [hraw, hvia]
+    rcases nearLoop_spec O c _ d fuel _ _ _ _ _ q hq with ⟨h1, h2, h3⟩ | h0
+    · have : q.2.2.1 ≠ 0 := by omega
+      simp only [this, ↓reduceIte]
+      exact Or.inl ⟨h1, h2⟩
+    · simp [h0]
+
+/-- **the fallback, for the code as it is** (pre-decrement `--tries > 0`): when every `psi` fails,
+the sampler returns `near` / `mean` (clamped), not the garbage the failed projections left in the
+buffer. -/
+theorem atlas_sampler_fallback (T fuel : Nat) (hT : 0 < T) (hT' : T < 4294967296) (hfuel : T ≤ fuel)
+    (hfail : ∀ s c u, (O.psi s c u).1.1 = false) (s : σ) (buf near : S) (d : D) (c : C)
+    (hc : (O.getChart s near true).1.1 = some c) :
+    ∃ r, atlasSampleNear Am O T fuel s buf near d = some r ∧ r.via = .fallback ∧ r.raw = near ∧
+      r.state = Am.clamp near := by
+  unfold atlasSampleNear
+  simp only [hc]
+  obtain ⟨q, hq, h0⟩ := nearLoop_all_fail O c (O.psiInv (O.getChart s near true).2 c near).1 d hfail fuel
+    (O.psiInv (O.getChart s near true).2 c near).2 T buf .garbage 0 hT hT' hfuel
+  rw [hq]
+  obtain ⟨hraw, hvia, hstate⟩ := nearFinish_raw Am O c near q
+  refine ⟨_, rfl, ?_, ?_, ?_⟩
+  · rw [hvia]; simp [h0]
+  · rw [hraw]; simp [h0]
+  · rw [hstate, hraw]; simp [h0]
+
+/-- on the manifold whenever a `psi` succeeded and `enforceBounds` was a no-op (F71 is the
+exception: it is not a no-op when the projection leaves the box). -/
+theorem atlas_sampler_on_manifold_partial (T fuel : Nat) (s : σ) (buf near : S) (d : D) (c : C)
+    (hc : (O.getChart s near true).1.1 = some c) (r : SampleOut σ S)
+    (h : atlasSampleNear Am O T fuel s buf near d = some r) (hvia : r.via = .psi)
+    (hnoop : Am.clamp r.raw = r.raw) : PsiOut O r.state := by
+  obtain ⟨hst, hcase⟩ := atlas_sampler_near_spec Am O T fuel s buf near d c hc r h
+  rw [hst, hnoop]
+  rcases hcase with h | h
+  · exact h.2
+  · rw [hvia] at h; cases h.1
+
+/-- every `psi` fails and leaves 99 in the buffer -/
+def failingAtlas : AtlasOracle Unit Nat Nat Unit Nat where
+  isSat _ _ := (true, ())
+  valid _ _ := (true, ())
+  getChart _ _ _ := ((some (), false), ())
+  psiInv _ _ x := (x, ())
+  psi _ _ _ := ((false, 99), ())
+  phi _ _ u := (u, ())
+  inPoly _ _ _ := (true, ())
+  conDist _ _ := (0, ())
+  advance _ u _ _ := (u, ())
+  uClose _ _ _ := (true, ())
+  sampleChart _ := ((), ())
+  drawBall _ := (0, ())
+  drawNear _ u _ := (u, ())
+  owning _ _ := (some (), ())
+  border _ _ _ := ()
+  origin _ := 0
+
+/-- **kernel-checked witness**: with a post-decrement (`tries-- > 0 && !psi`) the counter wraps to
+2³²−1 after the last failure, `tries == 0` is false, the fallback is skipped and the sampler hands
+back the failed projection's leftovers (99); the code as it is returns `near` (7). -/
+theorem atlas_sampler_postdec_skips_fallback :
+    (atlasSampleNearPostDec (⟨fun _ _ => 0, fun a _ _ => a, id⟩ : Ambient Nat Nat) failingAtlas 2 10 () 0 7 1).map
+        (fun r => (r.state, r.via)) = some (99, .garbage) ∧
+    (atlasSampleNear (⟨fun _ _ => 0, fun a _ _ => a, id⟩ : Ambient Nat Nat) failingAtlas 2 10 () 0 7 1).map
+        (fun r => (r.state, r.via)) = some (7, .fallback) := by
+  constructor
+  · simp [atlasSampleNearPostDec, nearLoopPostDec, nearFinish, failingAtlas, dec32]
+  · simp [atlasSampleNear, nearLoop, nearFinish, failingAtlas, dec32]
+
+end sampler
+
 /-! ## Non-vacuity: a traversal that stores three further states and succeeds (it keeps going at
 `dist = delta`: the loop condition is `dist >= tolerance`) -/
 
@@ -362,6 +596,18 @@ theorem nonvacuous_geodesic :
 
 example : ∃ x, x ∈ (discreteGeodesic natArith lineAmb natResid zeroOracle ⟨1, 2, 1, 50⟩ 10 () 0 3 false).states.tail :=
   ⟨1, by rw [nonvacuous_geodesic.1]; simp⟩
+
+/-- a one-chart "atlas" on the number line: `psi`/`phi`/`psiInverse` are the identity, each advance
+moves one unit -/
+def lineAtlas : AtlasOracle Unit Nat Nat Unit Nat :=
+  { failingAtlas with psi := fun _ _ u => ((true, u), ()), advance := fun _ uj ub _ => (if uj < ub then uj + 1 else uj - 1, ()) }
+
+/-- non-vacuity of the atlas theorems: a traversal that stores two further states and succeeds -/
+theorem nonvacuous_atlas_geodesic :
+    (atlasGeodesic natArith lineAmb lineAtlas ⟨1, 3, 5, 0, 1, 200⟩ 10 () 0 3 false).states = some [0, 1, 2] ∧
+    (atlasGeodesic natArith lineAmb lineAtlas ⟨1, 3, 5, 0, 1, 200⟩ 10 () 0 3 false).ok = true := by
+  constructor <;>
+    simp [atlasGeodesic, atlasLoop, atlasStep, validOrSkip, leavesChart, lineAtlas, failingAtlas, natArith, lineAmb]
 
 /-- the picks that the comment in the source describes as "the closer of the two adjacent states"
 are in fact the first stored state *past* `t` (F15): on `[0, 1, 2]`, `t = 0` picks index 1, not
